@@ -5,6 +5,7 @@ CONSTANTS
   AppendGuard = TRUE
   FreshCookie = TRUE
   UseSecureDefault = TRUE
+  SnapshotDefault = FALSE
   Depth = 4
   Bases = {"x-a", "etag", "link", "location", "content-type", "content-disposition"}
   Casings = {0, 1, 17, 4094, 1048575}
